@@ -18,7 +18,7 @@ public:
     using LeafGroupClass = TbfParticlesContainer<RealType, DataType, NbDataValuesPerParticle, RhsType, NbRhsValuesPerParticle, SpaceIndexType>;
     using CellGroupClass = TbfCellsContainer<RealType, MultipoleClass, LocalClass, SpaceIndexType>;
     using SpacialConfiguration = TbfSpacialConfiguration<RealType, SpaceIndexType::Dim>;
-    using IndexType = typename TbfDefaultSpaceIndexType<RealType>::IndexType;
+    using IndexType = typename SpaceIndexType::IndexType;
 
 protected:
     const SpacialConfiguration configuration;
@@ -39,7 +39,7 @@ public:
                const long int inNbElementsPerBlock = -1,
                const bool inOneGroupPerParent = false)
         : configuration(inConfiguration), spaceSystem(configuration),
-          nbElementsPerBlock(inNbElementsPerBlock == -1 ? TbfBlockSizeFinder::Estimate<RealType>(inParticlePositions,
+          nbElementsPerBlock(inNbElementsPerBlock == -1 ? TbfBlockSizeFinder::Estimate<RealType, ParticleContainer, SpaceIndexType>(inParticlePositions,
                                                                                                  inConfiguration):
                                                           inNbElementsPerBlock),
           oneGroupPerParent(inOneGroupPerParent), nbParticles(static_cast<long int>(std::size(inParticlePositions))){
@@ -334,7 +334,7 @@ public:
         }
 
         {
-            TbfParticleSorter<RealType> partSorter(spaceSystem, data);
+            TbfParticleSorter<RealType, SpaceIndexType> partSorter(spaceSystem, data);
             const auto groupProperties = partSorter.splitInGroups(nbElementsPerBlock);
             particleGroups.reserve(std::size(groupProperties));
 
